@@ -9,6 +9,8 @@ def run(ctx):
     beh = []
     r = vlib.tlc_expect_violation(ctx, "DcState", "DcState_asis_cex", workers=1)
     ctx.cov["asis_model"] = "counterexample found by TLC" if r.rc == 12 else "rc=%s" % r.rc
+    r = vlib.tlc_expect_violation(ctx, "DcState", "DcState_loadstore_cex", workers=1)
+    ctx.cov["load_then_store_model"] = "counterexample found by TLC" if r.rc == 12 else "rc=%s" % r.rc
     for start in ("connecting", "open"):
         for withp in (True, False):
             for v in ("fixed", "asis"):
@@ -25,6 +27,12 @@ def run(ctx):
                         continue
                     seen.add(key)
                     beh.append({"id": len(beh), "start": start, "withp": withp, "steps": steps, "free": False})
+    if quick:   # a seeded sample of the schedules; the thorough tier drives all of them
+        ctx.cov["quick_sample_of_schedules"] = {"kept": min(300, len(beh)), "of": len(beh)}
+        ctx.rng.shuffle(beh)
+        beh = beh[:300]
+        for i, b in enumerate(beh):
+            b["id"] = i
     # a PeerConnection that never gets an SCTP association: Close / PeerConnection.Close in both orders, with and
     # without a half-done exchange (the transport is "gone" from the start)
     for half in (False, True):
